@@ -18,11 +18,11 @@ import (
 type Tape struct {
 	Engine   string           `json:"engine"`
 	RunSeed  uint64           `json:"run_seed"`
-	Cred     string           `json:"cred"`     // keytab | password
-	Etype    int              `json:"etype"`    // client etype (single entry in default_*_enctypes)
-	Flow     string           `json:"flow"`     // none | preauth | assumed
+	Cred     string           `json:"cred"`  // keytab | password
+	Etype    int              `json:"etype"` // client etype (single entry in default_*_enctypes)
+	Flow     string           `json:"flow"`  // none | preauth | assumed
 	Hints    []string         `json:"hints,omitempty"`
-	Exchange string           `json:"exchange"` // as | tgs | referral
+	Exchange string           `json:"exchange"`      // as | tgs | referral
 	Hop      int              `json:"hop,omitempty"` // referral: which TGS reply is attacked (0 = referral TGT, 1 = final)
 	Perturb  []refkdc.Perturb `json:"perturb,omitempty"`
 	Net      string           `json:"net,omitempty"` // "" | stale | dup | truncate | krberror
@@ -87,7 +87,7 @@ func Meta() core.Meta {
 	q := ns*len(etypes)*len(exchanges) + 2*maxCode
 	return core.Meta{
 		Engine: "c09", Property: "C09", Level: "fault_enumeration",
-		Rule: "case = one run: a real client (keytab or password credential, one etype) performs an AS exchange, a TGS exchange or a referral chain against the reference KDC while exactly one reply is perturbed: a sealed or outer field changed (nonce +-1, cname, crealm, sname, srealm, ticket realm, addresses, authtime/starttime at and beyond the skew bound), sealed under another key / key usage / tag, ciphertext damaged, truncated, duplicated, replaced by the reply to the previous request, or replaced by a KRB-ERROR with each code 1..93; sweep = every single perturbation x 6 etypes x 3 exchanges + every error code x {AS,TGS} (thorough: x credential kind x pre-authentication flow); seeded runs add a second perturbation, hint layouts, transports and salts; distinct = distinct (exchange, flow, credential, etype, perturbations, outcome); non-trivial = a perturbation or network fault took effect",
+		Rule:       "case = one run: a real client (keytab or password credential, one etype) performs an AS exchange, a TGS exchange or a referral chain against the reference KDC while exactly one reply is perturbed: a sealed or outer field changed (nonce +-1, cname, crealm, sname, srealm, ticket realm, addresses, authtime/starttime at and beyond the skew bound), sealed under another key / key usage / tag, ciphertext damaged, truncated, duplicated, replaced by the reply to the previous request, or replaced by a KRB-ERROR with each code 1..93; sweep = every single perturbation x 6 etypes x 3 exchanges + every error code x {AS,TGS} (thorough: x credential kind x pre-authentication flow); seeded runs add a second perturbation, hint layouts, transports and salts; distinct = distinct (exchange, flow, credential, etype, perturbations, outcome); non-trivial = a perturbation or network fault took effect",
 		SweepQuick: q, SweepThorough: q * 4,
 		SeededQuick: 1500, SeededThorough: 100000,
 		WorkloadProbes: []string{"perturbed-reply-delivered", "krb-error-delivered", "stale-reply-delivered", "truncated-reply-delivered", "addresses-requested", "preauth-round-trip", "referral-followed", "honest-exchange"},
